@@ -16,6 +16,12 @@ from common.check import PropertyCheck, Skip, hx, unhx
 
 from mitmproxy import exceptions
 from mitmproxy.utils import human
+# imported here (not lazily) so that the forked pool workers inherit the loaded modules
+from common.world import World, make_context
+from mitmproxy.proxy.layers import http
+from mitmproxy.proxy.layers.http import HTTPMode
+from mitmproxy.test import taddons
+from mitmproxy.addons import proxyserver
 
 POLICIES = ["none", "true", "false", "id", "upper", "drop", "dropl", "dup", "mark"]
 CALLABLES = {
@@ -75,11 +81,6 @@ def status_of(raw: bytes):
 
 # ---- the run ------------------------------------------------------------------------------------------------------
 def run_flow(case):
-    from common.world import World, make_context
-    from mitmproxy.proxy.layers import http
-    from mitmproxy.proxy.layers.http import HTTPMode
-    from mitmproxy.test import taddons
-    from mitmproxy.addons import proxyserver
     resp = case["dir"] == "resp"
     chunks = [unhx(c) for c in case["chunks"]]
     body = b"".join(chunks)
@@ -94,8 +95,10 @@ def run_flow(case):
         ctx = make_context(opts=tctx.options)
         lay = http.HttpLayer(ctx, HTTPMode.regular)
         seen = {"flow": None, "err": []}
+        stream = [None]
 
         def on_hook(w, h):
+            if stream[0] is None and lay.streams: stream[0] = next(iter(lay.streams.values()))
             f = getattr(h, "flow", None)
             if f is not None: seen["flow"] = f
             if h.name == ("responseheaders" if resp else "requestheaders") and case["policy"] != "none":
@@ -104,7 +107,6 @@ def run_flow(case):
                 seen["err"].append(f.error.msg if f.error else "")
         w = World(lay, ctx, on_hook=on_hook)
         w.start()
-        stream = [None]
         samples, head_at = [], [None]
         peer = "client" if resp else "server0"
 
@@ -230,6 +232,10 @@ class Check(PropertyCheck):
                     "CPython int(str) for ASCII input as transcribed in the model (pyInt)"]
     parallel = True
 
+    def setup(self, tier):
+        # the quick tier is faster in one process than the start-up of 16 forked workers
+        self.parallel = tier == "thorough"
+
     # ---- translator -------------------------------------------------------------------------------------------
     def translate(self):
         rows = list(human.SIZE_UNITS.items())
@@ -265,15 +271,17 @@ class Check(PropertyCheck):
             yield [body] if body else []
             if len(body) >= 2: yield [body[:1], body[1:]]
             if len(body) >= 3: yield [body[:len(body) // 2], body[len(body) // 2:-1], body[-1:]]
-        # the grid of the design: options x policy x framing x direction x sizes
+        # the grid of the design: options x policy x framing x direction x sizes, and every 1/2/3-way chunking of
+        # small bodies; enumerated completely, visited in a seed-dependent order (the quick tier sees a slice of it,
+        # the thorough tier all of it)
+        grid = []
         for d in ("req", "resp"):
             for fr in framings[d]:
                 for lim, thr, store in itertools.product((None, str(LIM)), (None, str(THR)), (0, 1)):
                     for pol in POLICIES:
                         for n in sizes:
                             for ch in cuts_of(body_of(n)):
-                                yield self._flow(d, fr, lim, thr, store, pol, ch)
-        # every 1/2/3-way chunking of small bodies
+                                grid.append(self._flow(d, fr, lim, thr, store, pol, ch))
         for n in range(1, 6):
             body = body_of(n, 3)
             for k in (1, 2, 3):
@@ -281,7 +289,10 @@ class Check(PropertyCheck):
                     for d in ("req", "resp"):
                         for fr in framings[d]:
                             for lim, thr in (("3", None), (None, "2"), ("4", "2"), ("2", "4")):
-                                yield self._flow(d, fr, lim, thr, rng.randint(0, 1), rng.pick(POLICIES), ch, glue=rng.chance(0.3))
+                                grid.append(self._flow(d, fr, lim, thr, rng.randint(0, 1), rng.pick(POLICIES), ch, glue=rng.chance(0.3)))
+        rng.shuffle(grid)
+        if tier == "quick": grid = grid[:1500]
+        yield from grid
         sz = lambda n: str(n)
         while True:
             r = rng.random()
